@@ -24,7 +24,9 @@ def make_frame(rows, rng, index_kind, store=None, codes=None):
                        'y': [np.nan if r[1] is None else float(r[1]) for r in rows]})
     # compact storage of the 0/1 codes where the column has no missing value (a cell count may exceed the type's range)
     for col, j in (('e', 0), ('y', 1)):
-        if store and store.get(col) and not any(r[j] is None for r in rows) and not (col == 'e' and codes):
+        if store and store.get(col) == 'Int64' and not (col == 'e' and codes):
+            df[col] = df[col].astype('Int64')          # pandas' nullable integers (convert_dtypes(), read_csv(dtype_backend=...)): hold <NA>
+        elif store and store.get(col) and not any(r[j] is None for r in rows) and not (col == 'e' and codes):
             df[col] = df[col].astype(store[col])
     # a bystander column the analysis does not name, with missing values of its own (most real frames have some)
     df['cd4'] = [np.nan if (i * 7 + len(rows)) % 3 == 0 else 100.0 + i for i in range(len(rows))]
@@ -99,7 +101,8 @@ def gen_cases(ctx):
         r.shuffle(rows)
         cases.append({'rows': rows, 'reference': r.choice([0, 0, 1]), 'index': r.choice(['range', 'shift', 'str', 'dup']),
                       'kind': 'random', 'miss': miss, 'codes': r.choice([None, None, (202001, 202002), (7, 3), (1000000, 1000001)]),
-                      'store': {'e': r.choice([None, 'int8', 'uint8', 'bool', 'int64']), 'y': r.choice([None, 'int8', 'uint8', 'bool', 'int64'])}})
+                      'store': ({'e': r.choice([None, 'int8', 'uint8', 'bool', 'int64']), 'y': r.choice([None, 'int8', 'uint8', 'bool', 'int64'])}
+                                if len(cases) % 4 else {'e': 'Int64', 'y': 'Int64'})})
     # tables whose cell counts exceed 127 / 255, stored in every integer width
     for k in range(6 if ctx.quick else 40):
         r = ctx.rng
